@@ -86,3 +86,12 @@ type DateTime interface {
 	// GoTime returns the underlying time.Time object.
 	GoTime() time.Time
 }
+
+// unquoteJSON returns the bytes between the double quotes of the JSON string
+// in data. It returns false if data is not a quoted JSON string.
+func unquoteJSON(data []byte) ([]byte, bool) {
+	if len(data) < 2 || data[0] != '"' || data[len(data)-1] != '"' {
+		return nil, false
+	}
+	return data[1 : len(data)-1], true
+}
